@@ -259,3 +259,34 @@ def path_sign(it, expr):
             if abs(fp + f2) < 1e-7 * (1 + abs(fp)) and expr.equals(-e2):
                 return flip(it.trace.signs[k2])
     return frozenset('-0+')
+
+
+def path_zero_facts(it):
+    """expressions the explored path has decided to be exactly zero"""
+    out = []
+    for key, signs in it.trace.signs.items():
+        if signs == frozenset('0') and not key.startswith('close:') and key in it.trace.sign_exprs:
+            out.append(it.trace.sign_exprs[key])
+    return out
+
+
+def zero_modulo_facts(d, facts):
+    """is the Rat d a constant multiple of one of the path's zero facts (or zero after its linear substitution)?"""
+    d = to_rat(d)
+    if d.is_zero():
+        return True
+    for f in facts:
+        # compare numerators up to a constant: d.num * f.den == k * f.num * d.den
+        lhs = d.num * f.den
+        rhs = f.num * d.den
+        if not lhs.t or not rhs.t:
+            continue
+        m0 = min(rhs.t)
+        if m0 not in lhs.t:
+            continue
+        c1, c2 = lhs.t[m0], rhs.t[m0]
+        n = c2[0] * c2[0] + c2[1] * c2[1]
+        k = ((c1[0] * c2[0] + c1[1] * c2[1]) / n, (c1[1] * c2[0] - c1[0] * c2[1]) / n)
+        if (lhs - rhs.scale(k)).is_zero():
+            return True
+    return False
